@@ -16,7 +16,10 @@
 
     include!("/verif/kani/common/odd_alloc.rs");
 
+    #[cfg(not(verif_big))]
     pub const CAP: usize = 4;
+    #[cfg(verif_big)]
+    pub const CAP: usize = 8;
 
     macro_rules! end_reached {
         () => {
@@ -148,7 +151,8 @@
 
                 // (registered below) props=C01,C02,C03,C07,C16 tier=quick flags=leak group=step note=clone_from_arbitrary_shared_state
                 #[kani::proof]
-                #[kani::unwind(6)]
+                #[cfg_attr(not(verif_big), kani::unwind(6))]
+    #[cfg_attr(verif_big, kani::unwind(11))]
                 pub fn clone_step() {
                     unsafe {
                         let (b, g) = st_shared($vt);
@@ -180,7 +184,8 @@
 
                 // (registered below) props=C01,C02,C03,C16 tier=quick flags=leak group=step note=into_vec_from_arbitrary_shared_state
                 #[kani::proof]
-                #[kani::unwind(6)]
+                #[cfg_attr(not(verif_big), kani::unwind(6))]
+    #[cfg_attr(verif_big, kani::unwind(11))]
                 pub fn to_vec_step() {
                     unsafe {
                         let (b, g) = st_shared($vt);
@@ -205,7 +210,8 @@
 
                 // (registered below) props=C01,C02,C03,C04,C07,C08,C16 tier=quick flags=leak group=step note=into_mut_from_arbitrary_shared_state
                 #[kani::proof]
-                #[kani::unwind(6)]
+                #[cfg_attr(not(verif_big), kani::unwind(6))]
+    #[cfg_attr(verif_big, kani::unwind(11))]
                 pub fn to_mut_step() {
                     unsafe {
                         let (b, g) = st_shared($vt);
@@ -232,7 +238,8 @@
 
                 // (registered below) props=C08,C16 tier=quick flags=leak group=step note=is_unique_and_try_into_mut_from_arbitrary_shared_state
                 #[kani::proof]
-                #[kani::unwind(6)]
+                #[cfg_attr(not(verif_big), kani::unwind(6))]
+    #[cfg_attr(verif_big, kani::unwind(11))]
                 pub fn unique_step() {
                     unsafe {
                         let (b, g) = st_shared($vt);
@@ -256,7 +263,8 @@
 
                 // (registered below) props=C02,C03,C16 tier=quick flags=leak group=step note=drop_from_arbitrary_shared_state
                 #[kani::proof]
-                #[kani::unwind(6)]
+                #[cfg_attr(not(verif_big), kani::unwind(6))]
+    #[cfg_attr(verif_big, kani::unwind(11))]
                 pub fn drop_step() {
                     unsafe {
                         let (b, g) = st_shared($vt);
@@ -283,7 +291,8 @@
     // except truncate which promotes a promotable handle first)
     // @h props=C01,C02,C03,C07,C13 tier=quick flags=leak group=step note=slice/split/advance/truncate/clear_on_shared_state
     #[kani::proof]
-    #[kani::unwind(6)]
+    #[cfg_attr(not(verif_big), kani::unwind(6))]
+    #[cfg_attr(verif_big, kani::unwind(11))]
     pub fn view_ops_shared() {
         unsafe {
             let (mut b, g) = st_shared(&SHARED_VTABLE);
@@ -421,13 +430,15 @@
     // ================================================================================== promotable (never cloned)
     // @h props=C01,C02,C03,C07,C16 tier=quick flags=leak group=step note=first_clone_promotes(even_address)
     #[kani::proof]
-    #[kani::unwind(6)]
+    #[cfg_attr(not(verif_big), kani::unwind(6))]
+    #[cfg_attr(verif_big, kani::unwind(11))]
     pub fn promo_clone_even() {
         unsafe { promo_clone() }
     }
     // @h props=C01,C02,C03,C07,C16 tier=quick flags=leak group=step note=first_clone_promotes(odd_address)
     #[kani::proof]
-    #[kani::unwind(6)]
+    #[cfg_attr(not(verif_big), kani::unwind(6))]
+    #[cfg_attr(verif_big, kani::unwind(11))]
     #[kani::stub(std::alloc::alloc, odd_alloc)]
     #[kani::stub(std::alloc::dealloc, odd_dealloc)]
     #[kani::stub(std::alloc::realloc, odd_realloc)]
@@ -463,12 +474,14 @@
     macro_rules! parity_pair {
         ($even:ident, $odd:ident, $body:ident) => {
             #[kani::proof]
-            #[kani::unwind(6)]
+            #[cfg_attr(not(verif_big), kani::unwind(6))]
+    #[cfg_attr(verif_big, kani::unwind(11))]
             pub fn $even() {
                 unsafe { $body(true) }
             }
             #[kani::proof]
-            #[kani::unwind(6)]
+            #[cfg_attr(not(verif_big), kani::unwind(6))]
+    #[cfg_attr(verif_big, kani::unwind(11))]
             #[kani::stub(std::alloc::alloc, odd_alloc)]
             #[kani::stub(std::alloc::dealloc, odd_dealloc)]
             #[kani::stub(std::alloc::realloc, odd_realloc)]
@@ -542,7 +555,8 @@
 
     // @h props=C01,C02,C03,C07 tier=quick flags=leak group=step note=From<Vec>_with_spare_capacity_establishes_I-shared
     #[kani::proof]
-    #[kani::unwind(6)]
+    #[cfg_attr(not(verif_big), kani::unwind(6))]
+    #[cfg_attr(verif_big, kani::unwind(11))]
     pub fn ctor_from_vec_spare() {
         unsafe {
             let data: [u8; 3] = kani::any();
@@ -582,11 +596,12 @@
     }
 
     // ================================================================================== static and owner-backed
-    static SBUF: [u8; CAP] = [7, 8, 9, 10];
+    static SBUF: [u8; CAP] = [7; CAP];
 
     // @h props=C01,C03,C07,C08 tier=quick flags=leak group=step note=static_vtable_all_entries
     #[kani::proof]
-    #[kani::unwind(6)]
+    #[cfg_attr(not(verif_big), kani::unwind(6))]
+    #[cfg_attr(verif_big, kani::unwind(11))]
     pub fn static_ops() {
         let (off, len) = any_view();
         let b = Bytes::from_static(&SBUF[off..off + len]);
@@ -657,7 +672,8 @@
 
     // @h props=C01,C02,C03,C07,C08 tier=quick flags=leak group=step note=owner_backed_vtable_all_entries_from_arbitrary_count
     #[kani::proof]
-    #[kani::unwind(6)]
+    #[cfg_attr(not(verif_big), kani::unwind(6))]
+    #[cfg_attr(verif_big, kani::unwind(11))]
     pub fn owned_ops() {
         unsafe {
             let (b, data, off, len, r, lt) = st_owned();
@@ -733,7 +749,8 @@
 
     // @h props=C01,C02,C03,C07 tier=quick flags=witness group=step
     #[kani::proof]
-    #[kani::unwind(6)]
+    #[cfg_attr(not(verif_big), kani::unwind(6))]
+    #[cfg_attr(verif_big, kani::unwind(11))]
     pub fn witness() {
         unsafe {
             let (b, g) = st_shared(&SHARED_VTABLE);
@@ -750,7 +767,8 @@
     macro_rules! ooc {
         ($name:ident, |$b:ident, $g:ident| $body:block) => {
             #[kani::proof]
-            #[kani::unwind(6)]
+            #[cfg_attr(not(verif_big), kani::unwind(6))]
+    #[cfg_attr(verif_big, kani::unwind(11))]
             pub fn $name() {
                 unsafe {
                     let (mut $b, $g) = st_shared(&SHARED_VTABLE);
@@ -811,7 +829,8 @@
 
     // @h props=C13,C01 tier=quick flags=leak group=ooc note=documented_no-ops:truncate_beyond_len_leaves_the_handle_bit-identical
     #[kani::proof]
-    #[kani::unwind(6)]
+    #[cfg_attr(not(verif_big), kani::unwind(6))]
+    #[cfg_attr(verif_big, kani::unwind(11))]
     pub fn noop_truncate() {
         unsafe {
             let (mut b, g) = st_shared(&SHARED_VTABLE);
@@ -881,7 +900,8 @@
 
     // @h props=C05,C03 tier=quick flags=leak group=race note=conversion_racing_with_a_clone:into_vec/into_mut_of_a_handle_whose_sibling_appeared_after_the_uniqueness_was_assumed
     #[kani::proof]
-    #[kani::unwind(6)]
+    #[cfg_attr(not(verif_big), kani::unwind(6))]
+    #[cfg_attr(verif_big, kani::unwind(11))]
     pub fn convert_after_sibling_clone() {
         unsafe {
             // T1 is about to convert its (unique) shared handle; T2 clones a second handle it owns first.  Whatever
